@@ -213,6 +213,11 @@ pub enum Op {
     AppAckSoft { nth: u8 },
     /// like PeerAfterClose, with a QoS 1 / 2 PUBLISH that crossed the close request on the wire
     PeerPubAfterClose { qos: u8, id: u32 },
+    /// a server's transport is lost while the first `cut` bytes of the client's CONNECT are all
+    /// that has arrived; the application reports the loss
+    PartialConnectLoss { cut: u8 },
+    /// the first `cut` bytes of a PUBLISH arrive, then an armed timer fires, then the rest arrives
+    PartialThenTimer { cut: u8, k: Tk },
     Advance { ms: u64 },
     /// the transport is lost; `partial` > 0: the peer's next frame is cut after that many bytes first
     Close { partial: u16 },
@@ -1096,6 +1101,44 @@ impl Solo {
                 }
                 self.peer_send(&p);
             }
+            Op::PartialConnectLoss { cut } => {
+                // (with offline publishing the object may hold queued packets of no session at all:
+                // what a close report means for them is not pinned)
+                if self.acting_client || self.w.m.st != St::Disc || self.w.want_close || self.w.lenient || self.cfg.offline {
+                    return;
+                }
+                let p = self.cfg.connect_pkt(false);
+                let bytes = wire::encode(&p, self.w.idw);
+                let n = (*cut as usize).clamp(1, bytes.len() - 1);
+                let lists = self.w.feed(&bytes[..n]);
+                for l in lists {
+                    self.handle(&l);
+                }
+                self.fault("loss_mid_frame");
+                self.fault("transport_loss");
+                if !self.w.failed() {
+                    self.do_close();
+                }
+            }
+            Op::PartialThenTimer { cut, k } => {
+                if !self.connected() || !self.peer_up() || self.w.lenient || self.deadline[k.ix()].is_none() {
+                    return;
+                }
+                let mut p = Pkt::new(v, PUBLISH);
+                p.topic = TOPICS[0].into();
+                p.payload = self.payload(8);
+                let bytes = wire::encode(&p, self.w.idw);
+                let n = (*cut as usize).clamp(1, bytes.len() - 1);
+                self.peer_bytes(&bytes[..n]);
+                if self.w.failed() {
+                    return;
+                }
+                self.fault("fragmentation");
+                self.exec(&Op::Timer { k: *k });
+                if !self.w.failed() && self.peer_up() {
+                    self.peer_bytes(&bytes[n..]);
+                }
+            }
             Op::PeerPubAfterClose { qos, id } => {
                 if !self.w.want_close {
                     return;
@@ -1432,6 +1475,9 @@ pub fn gen_op(s: &Solo, r: &mut Rng, prof: &GenProfile) -> Op {
                 // offline / refused sends
                 return Op::Pub { qos: r.below(3) as u8, topic: r.below(3) as u8, alias: 0, pad: 0, fail: false };
             }
+            if x < 92 && !s.acting_client && cfg.f_loss {
+                return Op::PartialConnectLoss { cut: r.range(1, 12) as u8 };
+            }
             if x < 94 {
                 return Op::AppPubrel { nth: r.below(4) as u8 };
             }
@@ -1441,7 +1487,8 @@ pub fn gen_op(s: &Solo, r: &mut Rng, prof: &GenProfile) -> Op {
             if x < 97 && m.conn_no > 0 && cfg.role == Role::Any && cfg.ver != Ver::Undet {
                 return Op::SwapSide;
             }
-            if x < 98 && m.conn_no > 0 {
+            // (also before the first connection: later ones may then announce what it did not)
+            if x < 98 {
                 return match r.below(3) {
                     0 => Op::SetAlt { on: s.alt != 1 },
                     1 => Op::SetTight { on: s.alt != 2 },
@@ -1583,7 +1630,11 @@ pub fn gen_op(s: &Solo, r: &mut Rng, prof: &GenProfile) -> Op {
         },
         7 => {
             let armed: Vec<Tk> = Tk::ALL.iter().cloned().filter(|k| s.deadline[k.ix()].is_some()).collect();
-            Op::Timer { k: *r.pick(&armed) }
+            if r.chance(1, 6) {
+                Op::PartialThenTimer { cut: r.range(1, 10) as u8, k: *r.pick(&armed) }
+            } else {
+                Op::Timer { k: *r.pick(&armed) }
+            }
         }
         8 => Op::Close { partial: if r.chance(1, 3) { r.range(1, 20) as u16 } else { 0 } },
         9 => Op::Crash,
@@ -1691,6 +1742,23 @@ pub fn gen_adversarial(s: &Solo, r: &mut Rng) -> Vec<u8> {
         // raw garbage
         let n = r.range(1, 24) as usize;
         return (0..n).map(|_| *r.pick(&[0u8, 0x80, 0xff, 0x10, 0x20, 0x30, 0x32, 0x34, 0x40, 0x62, 0x7f, 0x81, 0xe0, 0xf0, 1, 2, 4])).collect();
+    }
+    if r.chance(1, 12) {
+        // a long frame of a kind this endpoint may never receive (it arrives in pieces when the
+        // transport fragments): nothing of its body may be taken for anything else
+        let kind: u8 = if s.acting_client { *r.pick(&[SUBSCRIBE, UNSUBSCRIBE, PINGREQ]) } else { *r.pick(&[SUBACK, UNSUBACK, PINGRESP]) };
+        let n: usize = 1500;
+        let mut b = vec![kind << 4 | if kind == SUBSCRIBE || kind == UNSUBSCRIBE { 2 } else { 0 }, (n & 0x7f) as u8 | 0x80, (n >> 7) as u8];
+        // a body that reads as well-formed frames when parsed from its start
+        let mut q = Pkt::new(v, PUBLISH);
+        q.topic = TOPICS[0].into();
+        q.payload = b"embedded".to_vec();
+        let inner = wire::encode(&q, idw);
+        while b.len() + inner.len() <= n + 3 {
+            b.extend_from_slice(&inner);
+        }
+        b.resize(n + 3, 0xc0);
+        return b;
     }
     let inflight: Vec<u32> = s.w.m.ids.iter().cloned().take(3).collect();
     let mut ids = vec![0u32, 1, 2, maxid];
